@@ -237,6 +237,8 @@ type DispatchWorld struct {
 	expect     map[string]*settlement     // by lease id: the settlement the recorded outcome calls for
 	leaseUntil map[string]time.Time       // by lease id: expiry as granted
 	stalled    map[*Task]bool             // the simulator moved the clock while this worker was mid-cycle (since its last dequeue)
+	faulted    map[string]map[string]int  // by lease id: injected store faults met by settlement calls, per method
+	lostRecs   map[string]int             // by message id: attempt records lost to an injected store fault
 }
 
 func (w *DispatchWorld) add(rule, props, loc, format string, a ...any) {
@@ -280,7 +282,7 @@ func (w *DispatchWorld) curDelivery() *delivery {
 }
 
 func NewDispatchWorld(spec *SysSpec, offset int64, seed int64, arm func(string) bool) (*DispatchWorld, error) {
-	w := &DispatchWorld{byID: map[string]*dmsg{}, byLease: map[string]*dmsg{}, cur: map[*Task]*delivery{}, inDeliver: map[string]*Task{}, taskItems: map[*Task][]queue.Envelope{}, expect: map[string]*settlement{}, leaseUntil: map[string]time.Time{}, stalled: map[*Task]bool{}}
+	w := &DispatchWorld{byID: map[string]*dmsg{}, byLease: map[string]*dmsg{}, cur: map[*Task]*delivery{}, inDeliver: map[string]*Task{}, taskItems: map[*Task][]queue.Envelope{}, expect: map[string]*settlement{}, leaseUntil: map[string]time.Time{}, stalled: map[*Task]bool{}, faulted: map[string]map[string]int{}, lostRecs: map[string]int{}}
 	w.Model = NewModel(sysQConfig(spec))
 	sw, err := NewSysWorld(spec, offset, SysOptions{Seed: seed, ArmPoints: arm, OnStore: func(ss *SimStore) {
 		ss.OnEnqueue = func(envs []queue.Envelope, batch bool, n int, err error) {
@@ -289,6 +291,7 @@ func NewDispatchWorld(spec *SysSpec, offset int64, seed int64, arm func(string) 
 		ss.OnDequeue = w.onDequeue
 		ss.OnAttempt = w.onAttempt
 		ss.OnLease = w.onLease
+		ss.OnFault = w.onFault
 	}})
 	if err != nil {
 		return nil, err
@@ -339,6 +342,27 @@ func (w *DispatchWorld) onDequeue(req queue.DequeueRequest, resp queue.DequeueRe
 	now := w.Clock.Peek()
 	w.addAll(w.Model.Dequeue(now, req, resp, err), "dispatch/dequeue")
 	t := w.Sched.Current()
+	// the worker starts a new cycle: every lease of its previous cycle whose
+	// delivery was recorded has been settled by a call the store accepted -
+	// unless an injected store fault refused the settlement of last resort (the
+	// single-lease call; a refused batch call falls back to single calls)
+	for _, it := range w.taskItems[t] {
+		ex := w.expect[it.LeaseID]
+		if ex == nil {
+			continue
+		}
+		f := w.faulted[it.LeaseID]
+		if f["Ack"]+f["Nack"]+f["MarkDead"] == 0 {
+			tok := it.ID
+			if dm := w.byID[it.ID]; dm != nil {
+				tok = dm.token
+			}
+			w.add("C06.settle.dropped", "C06,C05", "dispatch/settle", "the delivery of %s (attempt %d) was recorded with outcome %s but the worker began its next cycle without a settlement call for that lease reaching the store (injected faults on its calls: %v)", tok, ex.attempt, ex.kind, f)
+		} else {
+			w.Res.probe("dispatch.settlement_lost_to_store_fault")
+		}
+		delete(w.expect, it.LeaseID)
+	}
 	w.taskItems[t] = append([]queue.Envelope(nil), resp.Items...)
 	w.stalled[t] = false
 	if len(resp.Items) > 1 {
@@ -385,7 +409,12 @@ func (w *DispatchWorld) onAttempt(a queue.DeliveryAttempt, err error) {
 		w.add("C06.attempt.unknown", "C06", loc, "attempt recorded for unknown message %s", a.EventID)
 		return
 	}
-	dm.records++
+	if err == errInjected {
+		w.lostRecs[a.EventID]++
+		dm.conflict = true
+	} else {
+		dm.records++
+	}
 	retry := w.retryFor(dm.target)
 	eg := w.Spec.egressRef()
 	// the lease this worker holds for the message (the message itself may have
@@ -499,7 +528,7 @@ func (w *DispatchWorld) onAttempt(a queue.DeliveryAttempt, err error) {
 	if final == "status" && a.StatusCode != status {
 		w.add("C06.attempt.status", "C06", loc, "attempt record status %d, target answered %d", a.StatusCode, status)
 	}
-	if err != nil {
+	if err != nil && err != errInjected {
 		w.add("C06.attempt.notrecorded", "C06", loc, "RecordAttempt failed: %v", err)
 	}
 	st := &settlement{kind: outcome, reason: reason, attempt: a.Attempt}
@@ -624,6 +653,26 @@ func (w *DispatchWorld) refSigningSecret(sg *SignSpec, at time.Time) (string, bo
 		return cs[i].from.After(cs[j].from)
 	})
 	return cs[0].val, true
+}
+
+// onFault: an injected store fault refused a call of the dispatcher.
+func (w *DispatchWorld) onFault(method string, ids []string, a *queue.DeliveryAttempt) {
+	w.Res.probe("dispatch.storefault." + method)
+	if a != nil {
+		// the attempt record is lost; the delivery itself is judged as usual
+		w.onAttempt(*a, errInjected)
+		return
+	}
+	for _, id := range ids {
+		if w.faulted[id] == nil {
+			w.faulted[id] = map[string]int{}
+		}
+		w.faulted[id][method]++
+		if dm := w.byLease[id]; dm != nil {
+			dm.conflict = true // a refused settlement leads to a redelivery: the sends bound assumes settlements succeed
+		}
+	}
+	w.settleLog = append(w.settleLog, fmt.Sprintf("  store fault: %s of %d lease(s) refused", method, len(ids)))
 }
 
 func (w *DispatchWorld) onLease(method string, ids []string, d time.Duration, reason string, res *queue.LeaseBatchResult, err error) {
@@ -875,6 +924,11 @@ func RunDispatchProgram(p *Program) *Result {
 			w.Res.logf("advance %s", s.D)
 		case "interleave":
 			w.InterleaveStep(s)
+		case "storefault":
+			// the next Batch calls of store method Reason made by the dispatcher fail
+			w.storeFaults[s.Reason] += s.Batch
+			w.Res.Ops++
+			w.Res.logf("store fault armed: next %d call(s) of %s fail", s.Batch, s.Reason)
 		default:
 			w.Res.Trouble = "dispatch world: unknown op " + s.Op
 		}
@@ -884,6 +938,9 @@ func RunDispatchProgram(p *Program) *Result {
 	}
 	for _, h := range sys.DNSFail {
 		w.Net.SetDNSFail(h, false)
+	}
+	for m := range w.storeFaults {
+		delete(w.storeFaults, m)
 	}
 	w.Drain()
 	// one attempt record per delivery, none missing
